@@ -1,5 +1,6 @@
 import YaqsModel.Basic.Parse
 import YaqsModel.Model.Index
+import YaqsModel.Model.MasterEq
 /-! line protocol for the index maps and Kronecker embeddings (C06)
 
     kron      d… | b…            → kronIdx            (`err` if the digits are not valid for the dimensions)
@@ -80,4 +81,201 @@ def handle (line : String) : String :=
     | _, _, _, _, _, _ => "bad-op"
   | _ => "bad-op"
 
-def main : IO Unit := do lineLoop (← IO.getStdin) handle
+/-! ## extension: content of the Lindblad / MCWF solvers (`Model.MasterEq`)
+
+    complex numbers travel as two rationals `re im`; a matrix of dimension `n = 2^L` as `2·n²` tokens, row major.
+    process segments  `p1 γ site  m(2×2)` · `p2 γ s1 s2 m(4×4)` · `pf γ s1 s2 a(2×2) b(2×2)`   (local operators, unscaled)
+    observable segments `o1 site m(2×2)` · `o2 s1 s2 m(4×4)` · `od` (structural diagnostic)
+
+    lindrhs L | H | ρ | proc…          → entries of `lindbladOfProcs` (the real `lindblad_rhs` closure on ρ)
+    lindrhstr L | H | ρ | proc…        → trace of the same
+    ldagl   L | proc…                  → entries of `l_dag_l_sum`
+    heff    L | H | proc…              → entries of `preprocess_mcwf(...).heff`
+    jumpops L | proc…                  → `count` then, per kept operator, the entries `γ·L_ij·|L_ij|²`
+                                          (= `J_ij·|J_ij|` of the real `J = sqrt(γ)·L` when `|L_ij| ∈ {0,1}`)
+    lindobs L | ρ | obs…               → `Re Tr(O ρ)` per observable, `0` for a diagnostic
+    lindtol thr                        → `rtol atol`
+    mcwfstep L sample r k | ψ | ψnext | obs… proc…
+         → `p_jump  renorm|jump k pv… cols v…`  (the reported columns, initial one first if `sample = 1`; `renorm` is
+           what can be observed of both `noJump` and `noJumpEps`: no call of `choice`, `psi_next/sqrt(norm_sq)` measured)
+    any embedding error (`IndexError` / `ValueError` in `_embed_generic`) → `err`
+-/
+open Yaqs.MasterEq
+
+def cList? : List String → Option (List CRat)
+  | [] => some []
+  | a :: b :: rest =>
+    match parseRat? a, parseRat? b, cList? rest with
+    | some x, some y, some zs => some (⟨x, y⟩ :: zs)
+    | _, _, _ => none
+  | _ => none
+
+def chunks (n : Nat) (xs : List CRat) : CMat :=
+  (List.range n).map fun i => (xs.drop (i * n)).take n
+
+def cmat? (n : Nat) (ws : List String) : Option CMat :=
+  match cList? ws with
+  | some xs => if xs.length = n * n then some (chunks n xs) else none
+  | none => none
+
+def cvec? (n : Nat) (ws : List String) : Option CVec :=
+  match cList? ws with
+  | some xs => if xs.length = n then some xs else none
+  | none => none
+
+def localMat? (d : Nat) (ws : List String) : Option (Mat CRat) :=
+  match cList? ws with
+  | some xs => if xs.length = d * d then some (ofList d d xs) else none
+  | none => none
+
+/-- a process segment: `none` = ill-formed, `some none` = the embedding raises -/
+def proc? (L : Nat) (ws : List String) : Option (Option (Proc CMat)) :=
+  let n := 2 ^ L
+  match ws with
+  | "p1" :: g :: s :: m =>
+    match parseRat? g, s.toNat?, localMat? 2 m with
+    | some g, some s, some m => some ((embed1 L s m).map fun E => ⟨g, ofIndexMat n E⟩)
+    | _, _, _ => none
+  | "p2" :: g :: s1 :: s2 :: m =>
+    match parseRat? g, s1.toNat?, s2.toNat?, localMat? 4 m with
+    | some g, some s1, some s2, some m => some ((embed2 L s1 s2 m).map fun E => ⟨g, ofIndexMat n E⟩)
+    | _, _, _, _ => none
+  | "pf" :: g :: s1 :: s2 :: ms =>
+    match parseRat? g, s1.toNat?, s2.toNat?, localMat? 2 (ms.take 8), localMat? 2 (ms.drop 8) with
+    | some g, some s1, some s2, some a, some b => some ((embedF L s1 s2 a b).map fun E => ⟨g, ofIndexMat n E⟩)
+    | _, _, _, _, _ => none
+  | _ => none
+
+def obs? (L : Nat) (ws : List String) : Option (Option Obs) :=
+  let n := 2 ^ L
+  match ws with
+  | ["od"] => some (some .diagnostic)
+  | "o1" :: s :: m =>
+    match s.toNat?, localMat? 2 m with
+    | some s, some m => some ((embed1 L s m).map fun E => .op (ofIndexMat n E))
+    | _, _ => none
+  | "o2" :: s1 :: s2 :: m =>
+    match s1.toNat?, s2.toNat?, localMat? 4 m with
+    | some s1, some s2, some m => some ((embed2 L s1 s2 m).map fun E => .op (ofIndexMat n E))
+    | _, _, _ => none
+  | _ => none
+
+def showC (z : CRat) : String := showRat z.re ++ " " ++ showRat z.im
+def showCMat (A : CMat) : String := joinWith " " (A.flatMap fun row => row.map showC)
+def showRats (xs : List Rat) : String := joinWith " " (xs.map showRat)
+
+/-- all segments must parse (`none` → bad-op); an embedding error in any of them → `some none` -/
+def allProcs? (L : Nat) (segs : List (List String)) : Option (Option (List (Proc CMat))) :=
+  match segs.mapM (proc? L) with
+  | none => none
+  | some ps => some (ps.mapM id)
+
+def allObs? (L : Nat) (segs : List (List String)) : Option (Option (List Obs)) :=
+  match segs.mapM (obs? L) with
+  | none => none
+  | some os => some (os.mapM id)
+
+def isObsSeg (ws : List String) : Bool :=
+  match ws with
+  | t :: _ => t = "o1" || t = "o2" || t = "od"
+  | [] => false
+
+def handleME (line : String) : String :=
+  match splitBar (words line) with
+  | ["lindrhs", l] :: h :: r :: ps =>
+    match l.toNat? with
+    | some L =>
+      let n := 2 ^ L
+      match cmat? n h, cmat? n r, allProcs? L ps with
+      | some H, some ρ, some (some procs) => showCMat (lindbladOfProcs (listOps n) H procs ρ)
+      | some _, some _, some none => "err"
+      | _, _, _ => "bad-op"
+    | none => "bad-op"
+  | ["lindrhstr", l] :: h :: r :: ps =>
+    match l.toNat? with
+    | some L =>
+      let n := 2 ^ L
+      match cmat? n h, cmat? n r, allProcs? L ps with
+      | some H, some ρ, some (some procs) => showC (mtrace n (lindbladOfProcs (listOps n) H procs ρ))
+      | some _, some _, some none => "err"
+      | _, _, _ => "bad-op"
+    | none => "bad-op"
+  | ["ldagl", l] :: ps =>
+    match l.toNat? with
+    | some L =>
+      let n := 2 ^ L
+      match allProcs? L ps with
+      | some (some procs) => showCMat (lDagLSum (listOps n) (jumpOps procs))
+      | some none => "err"
+      | none => "bad-op"
+    | none => "bad-op"
+  | ["heff", l] :: h :: ps =>
+    match l.toNat? with
+    | some L =>
+      let n := 2 ^ L
+      match cmat? n h, allProcs? L ps with
+      | some H, some (some procs) => showCMat (heffOfProcs (listOps n) H procs)
+      | some _, some none => "err"
+      | _, _ => "bad-op"
+    | none => "bad-op"
+  | ["jumpops", l] :: ps =>
+    match l.toNat? with
+    | some L =>
+      let n := 2 ^ L
+      match allProcs? L ps with
+      | some (some procs) =>
+        let kept := jumpOps procs
+        joinWith " " (toString kept.length :: kept.map fun p =>
+          showCMat (tab n fun i j => CRat.smul (p.gamma * CRat.normSq (get p.op i j)) (get p.op i j)))
+      | some none => "err"
+      | none => "bad-op"
+    | none => "bad-op"
+  | ["lindobs", l] :: r :: os =>
+    match l.toNat? with
+    | some L =>
+      let n := 2 ^ L
+      match cmat? n r, allObs? L os with
+      | some ρ, some (some obs) => showRats (obs.map (obsValue n ρ))
+      | some _, some none => "err"
+      | _, _ => "bad-op"
+    | none => "bad-op"
+  | [["lindtol", t]] =>
+    match parseRat? t with
+    | some thr => let (a, b) := solverTol thr; showRat a ++ " " ++ showRat b
+    | none => "bad-op"
+  | ["mcwfstep", l, smp, r, k] :: p0 :: p1 :: segs =>
+    match l.toNat?, smp.toNat?, parseRat? r, k.toNat? with
+    | some L, some smp, some r, some k =>
+      let n := 2 ^ L
+      let osegs := segs.filter isObsSeg
+      let psegs := segs.filter (fun s => !isObsSeg s)
+      match cvec? n p0, cvec? n p1, allObs? L osegs, allProcs? L psegs with
+      | some ψ, some ψnext, some (some obs), some (some procs) =>
+        if smp > 1 then "bad-op" else
+        let Ls := jumpOps procs
+        match mcwfTaken n Ls ψ ψnext r k with
+        | none => "bad-op"
+        | some t =>
+          let (v, c) := postState n Ls ψ ψnext t
+          let v0 := obs.map (obsValuePure n ψ (vnormSq ψ))
+          let v1 := obs.map (obsValuePure n v c)
+          let cols := (reportedOneStep (smp == 1) v0 v1).flatMap id
+          let br := match t with
+            | .noJump => "renorm"
+            | .noJumpEps => "renorm"
+            | .jump k pv => "jump " ++ toString k ++ " pv " ++ showRats pv
+          showRat (pJump ψnext) ++ " " ++ br ++ " cols " ++ showRats cols
+      | some _, some _, some none, some _ => "err"
+      | some _, some _, some _, some none => "err"
+      | _, _, _, _ => "bad-op"
+    | _, _, _, _ => "bad-op"
+  | _ => "bad-op"
+
+def handleAll (line : String) : String :=
+  match words line with
+  | op :: _ =>
+    if ["lindrhs", "lindrhstr", "ldagl", "heff", "jumpops", "lindobs", "lindtol", "mcwfstep"].contains op then handleME line
+    else handle line
+  | [] => handle line
+
+def main : IO Unit := do lineLoop (← IO.getStdin) handleAll
